@@ -510,7 +510,7 @@ pub fn judge(input: &str, toks: &[LexerToken]) -> Vec<Fault> {
         let mut newlines = 0usize;
         let check_run = |rs: usize, re: usize, newlines: usize, out: &mut Vec<Fault>| {
             if newlines >= 2 {
-                let has = toks.iter().enumerate().any(|(i, t)| t.get_token_type() == TokenType::Subexpression && spans[i].0 >= rs && spans[i].0 < re);
+                let has = toks.iter().enumerate().any(|(i, t)| t.get_token_type() == TokenType::Subexpression && spans[i].0 < re && spans[i].1 > rs);
                 if !has {
                     push_fault(
                         out,
